@@ -4,8 +4,10 @@ package main
 
 import (
 	"fmt"
+	"go/constant"
 	"go/token"
 	"go/types"
+	"math"
 	"sort"
 	"strings"
 
@@ -265,7 +267,7 @@ func cmpOf(cond ssa.Value) (c cmp, truth bool, ok bool) {
 		case *ssa.BinOp:
 			switch x.Op {
 			case token.EQL, token.NEQ, token.LSS, token.LEQ, token.GTR, token.GEQ:
-				return cmp{x.Op, x.X, x.Y}, truth, true
+				return normHugeConst(cmp{x.Op, x.X, x.Y}), truth, true
 			}
 			return c, truth, false
 		case *ssa.Call, *ssa.Extract:
@@ -297,6 +299,30 @@ func cmpOf(cond ssa.Value) (c cmp, truth bool, ok bool) {
 			return c, truth, false
 		}
 	}
+}
+
+// normHugeConst rewrites a comparison with the constant 2^63 (one above what the int64 arithmetic
+// of the linear forms holds) into the equivalent one with MaxInt64: x >= 1<<63 is x > MaxInt64,
+// x < 1<<63 is x <= MaxInt64, and the same with the operands swapped.
+func normHugeConst(c cmp) cmp {
+	is63 := func(v ssa.Value) bool {
+		k, ok := v.(*ssa.Const)
+		return ok && k.Value != nil && k.Value.Kind() == constant.Int && k.Value.ExactString() == "9223372036854775808"
+	}
+	maxInt := func(like ssa.Value) ssa.Value {
+		return ssa.NewConst(constant.MakeInt64(math.MaxInt64), like.Type())
+	}
+	switch {
+	case is63(c.y) && c.op == token.GEQ:
+		return cmp{token.GTR, c.x, maxInt(c.y)}
+	case is63(c.y) && c.op == token.LSS:
+		return cmp{token.LEQ, c.x, maxInt(c.y)}
+	case is63(c.x) && c.op == token.LEQ:
+		return cmp{token.LSS, maxInt(c.x), c.y}
+	case is63(c.x) && c.op == token.GTR:
+		return cmp{token.GEQ, maxInt(c.x), c.y}
+	}
+	return c
 }
 
 // mirrorOp is the operator of the comparison with its operands swapped; negOp the one of
